@@ -320,6 +320,21 @@ func runC03(c *fw.Ctx) {
 			}
 		}
 	}
+	zoo := layoutZoo()
+	zi := 0
+	for k, src := range zoo {
+		zi++
+		if !c.Mine(zi + len(k)) {
+			continue
+		}
+		for _, tr := range c03Transforms {
+			in := c03Transform(tr, []byte(src))
+			if !corpus.Parses(in) {
+				continue
+			}
+			c03Check(c, "zoo:"+k+"/"+tr, tr, in, []byte(src))
+		}
+	}
 	if c.Shard == 0 {
 		c.Sample(map[string]interface{}{"transforms": c03Transforms, "note": "each case = one (file, transform) pair"})
 	}
